@@ -27,7 +27,7 @@ LEVEL = "exploration"
 RULE = ("seeded interleavings of 3..10 `with` blocks of 2-3 objects (any mix of RF24, FakeBLE, RF24Network, RF24Mesh) "
         "sharing one chip/CE/bus; inside each block a seeded history of configuration calls allowed by the class "
         "(RF24: the C03 alphabet; network/mesh: the RadioMixin attributes, node_address, multicast_level; BLE: name, "
-        "show_pa_level, hop_channel, channel, pa_level, payload_length, interrupt_config); chip plus/non-plus, clean/dirty. "
+        "show_pa_level, hop_channel, channel, pa_level, payload_length, interrupt_config), in a third of the blocks also traffic (a transmission to an absent peer and a return to RX mode); chip plus/non-plus, clean/dirty. "
         "Non-trivial: some object re-entered its block after another object changed at least one register; distinct = "
         "distinct (class mix, block order, call names)")
 ASSUMPTIONS = ["configuration registers = 0x00-0x06, 0x0A-0x16, 0x1C, 0x1D of the chip model",
@@ -76,9 +76,44 @@ def make(i, base_seed, tier):
                 if cls == "RF24Mesh" and op[0] == "node_address":
                     op = ["multicast_level", rng.randint(0, 4)]
             ops.append(op)
+        xr = stream(seed * 31 + len(blocks), "traffic")
+        if xr.random() < 0.3:
+            # traffic inside the block (not only configuration): the object transmits - to a peer that is not there - and listens again
+            ops.insert(xr.randint(0, len(ops)), ["traffic", xr.getrandbits(16)])
         blocks.append({"who": who, "ops": ops})
     return {"seed": seed, "classes": classes, "blocks": blocks, "plus": rng.random() < 0.7, "dirty": rng.random() < 0.4,
             "backend": rng.choice(["spidev", "busio"])}
+
+
+def _traffic(obj, cls, seed):
+    """a failing transmission and a return to RX mode inside the block"""
+    r = stream(seed, "traffic_op")
+    if cls in ("RF24", "FakeBLE"):
+        # (the application's own preparations: powered up, nothing left in the TX FIFO - send() on a sleeping radio or behind a
+        # full FIFO does not return, which is outside this property)
+        obj.power = True
+        obj.flush_tx()
+    if cls == "RF24":
+        if r.random() < 0.7:
+            obj.open_rx_pipe(0, bytes(r.getrandbits(8) for _ in range(5)))
+        obj.listen = False
+        obj.open_tx_pipe(bytes(r.getrandbits(8) for _ in range(5)))
+        try:
+            obj.send(bytes(r.getrandbits(8) for _ in range(r.randint(1, 8))))
+        except ValueError:
+            pass
+        obj.listen = True
+    elif cls == "FakeBLE":
+        obj.listen = False
+        obj.advertise(b"\x01", 0xFF)
+        obj.listen = True
+    else:
+        from circuitpython_nrf24l01.network.structs import RF24NetworkHeader, RF24NetworkFrame
+        obj.tx_timeout = 2
+        if cls == "RF24Mesh":
+            obj.write(0o3, 1, b"x")
+        else:
+            obj.write(RF24NetworkFrame(RF24NetworkHeader(0o3 if obj.node_address != 0o3 else 0o4, 1), b"x"))
 
 
 def _net_call(obj, op):
@@ -188,7 +223,10 @@ def _run(scn, w, res):
         for op in blk["ops"]:
             sim.log("call", cls, op[0])
             try:
-                if cls == "RF24":
+                if op[0] == "traffic":
+                    _traffic(o, cls, op[1])
+                    sim.count("traffic_inside_block")
+                elif cls == "RF24":
                     if op[0] in ("start_carrier_wave", "stop_carrier_wave") and not o.is_plus_variant:
                         continue
                     c03.call(o, op)
